@@ -142,6 +142,8 @@ pub struct Expect {
     /// the library stopped retrying although another attempt was allowed (permitted: retries are optional)
     pub gave_up_early: bool,
     pub forged_exchange: bool,
+    /// the single attempt failed while the request was being constructed: no request on the wire, no retry
+    pub construction_failure: bool,
 }
 
 pub struct CheckInputs<'a> {
@@ -258,6 +260,10 @@ pub fn walk_check(inp: &CheckInputs) -> Expect {
                     if let Some(class) = &inp.construction_failure {
                         // the request could not even be built: a failed check, nothing heard from the server
                         fail(&mut e, class.clone(), "internal");
+                        // one attempt was made (and is accounted for in the metrics); nothing went on the wire
+                        e.attempts = 1;
+                        e.attempt_success.push(false);
+                        e.construction_failure = true;
                         e.complete = true;
                     }
                     return e; // otherwise not even one attempt: the log was cut short
